@@ -57,3 +57,57 @@ Theorem C19_ord_reg_contract : forall s, List.length (regs s) = 16%nat ->
   (forall r, 2 <= r <= 11 -> getreg s' r = getreg s r).
 Proof. exact ord_reg_contract. Qed.
 Print Assumptions C19_ord_reg_contract.
+
+(* ---- routines with control flow and with stack frames, placed at any address ---------------------------- *)
+From Hera.Spec Require Import Wf.
+From Hera.Lib Require Import Word16.
+From Hera.Proofs Require Import SpecCore C19_Not C19_Stack C19_NotStack.
+
+(* the register file, memory, program counter and flags of the specification machine evolve on their
+   own: hera-py's bookkeeping (warnings, call stack, counters) never feeds back into them *)
+Theorem C19_core_simulation : forall i s c c', sim s c -> valid_instr i = true -> cstep i c = Some c' -> sim (step i s) c'.
+Proof. exact sim_step. Qed.
+Print Assumptions C19_core_simulation.
+
+(* not(x), register convention, at any address base: 1 for 0, 0 otherwise; back to the caller; FP restored;
+   SP, memory and R2..R10 untouched (R11 is the scratch register of the label branch) *)
+Theorem C19_not_reg_contract : forall base s,
+  0 <= base -> base + 10 < 65536 -> List.length (regs s) = 16%nat -> pc s = base ->
+  getreg s 0 = 0 -> 0 <= getreg s 1 < 65536 ->
+  exists n s', run_at base (not_reg_code base) n s = Some s' /\
+    getreg s' 1 = (if getreg s 1 =? 0 then 1 else 0) /\ pc s' = getreg s 13 /\
+    getreg s' 14 = getreg s 12 /\ getreg s' 15 = getreg s 15 /\ mem s' = mem s /\
+    (forall j, 2 <= j <= 10 -> getreg s' j = getreg s j).
+Proof. exact not_reg_contract. Qed.
+Print Assumptions C19_not_reg_contract.
+
+(* size / ord, stack convention (k = 0 / 1): the result cell FP+3 receives memory[argument + k]; R1..R11
+   and SP come back unchanged, FP is restored, only the cells FP+3 and FP+4 are written *)
+Theorem C19_stack_load_contract : forall k base s,
+  0 <= k < 32 -> List.length (regs s) = 16%nat -> pc s = base -> wf_mem (mem s) ->
+  0 <= getreg s 15 < 65536 -> word (getreg s 1) ->
+  let a3 := (getreg s 14 + 3) mod 65536 in let a4 := (getreg s 14 + 4) mod 65536 in
+  let arg := mem_read (mem s) a3 in
+  (arg + k) mod 65536 <> a4 ->
+  exists s', run_at base (stack_load_code k) 8 s = Some s' /\
+    mem_read (mem s') a3 = mem_read (mem s) ((arg + k) mod 65536) /\
+    (forall b, 0 <= b -> b <> a3 -> b <> a4 -> mem_read (mem s') b = mem_read (mem s) b) /\
+    getreg s' 1 = getreg s 1 /\ pc s' = getreg s 13 /\ getreg s' 14 = getreg s 12 /\
+    getreg s' 15 = getreg s 15 /\ (forall j, 2 <= j <= 11 -> getreg s' j = getreg s j).
+Proof. exact stack_load_contract. Qed.
+Print Assumptions C19_stack_load_contract.
+
+(* not(x), stack convention, at any address *)
+Theorem C19_not_stack_contract : forall base s,
+  0 <= base -> base + 23 < 65536 -> List.length (regs s) = 16%nat -> pc s = base -> wf_mem (mem s) ->
+  getreg s 0 = 0 -> 0 <= getreg s 15 < 65536 -> word (getreg s 1) -> word (getreg s 12) -> word (getreg s 13) ->
+  let a0 := (getreg s 14 + 0) mod 65536 in let a1 := (getreg s 14 + 1) mod 65536 in
+  let a3 := (getreg s 14 + 3) mod 65536 in let a4 := (getreg s 14 + 4) mod 65536 in
+  let arg := mem_read (mem s) a3 in
+  exists n s', run_at base (not_stack_code base) n s = Some s' /\
+    mem_read (mem s') a3 = (if arg =? 0 then 1 else 0) /\
+    (forall b, 0 <= b -> b <> a0 -> b <> a1 -> b <> a3 -> b <> a4 -> mem_read (mem s') b = mem_read (mem s) b) /\
+    getreg s' 1 = getreg s 1 /\ pc s' = getreg s 13 /\ getreg s' 14 = getreg s 12 /\
+    getreg s' 15 = getreg s 15 /\ (forall j, 2 <= j <= 10 -> getreg s' j = getreg s j).
+Proof. exact not_stack_contract. Qed.
+Print Assumptions C19_not_stack_contract.
